@@ -2199,4 +2199,510 @@ theorem optContacts_eff {c : Prop} [Decidable c] {w w' : World} {u : Unit}
   · simp only [hc, if_false, pure_run, Prod.mk.injEq] at h
     exact .inl ⟨hc, h.2.symm⟩
 
+/-! ### Generic alphabets for the small pieces; glue with a special treatment of the challenges -/
+
+theorem AllEv.pollAuthz (P : Ev → Prop) (h : ∀ a s r, P (.exch (.authzPoll a) .kid s r))
+    (a n : Nat) : Sat (TR (AllEv P)) (pollAuthz a n) := by
+  induction n with
+  | zero => unfold Flow.pollAuthz; exact Sat.failAt (AllEv.tlaw P).law _
+  | succ n ih =>
+    unfold Flow.pollAuthz
+    walk [ih] [AllEv.exchange P] (AllEv.tlaw P).law
+    exact h _ _ _
+
+theorem AllEv.cleanHooks (P : Ev → Prop) (h : ∀ c b, P (.hooks (.clean c) b)) (l : List Nat) :
+    Sat (TR (AllEv P)) (cleanHooks l) := by
+  induction l with
+  | nil => unfold Flow.cleanHooks; exact Sat.pure (AllEv.tlaw P).law _
+  | cons x rest ih =>
+    unfold Flow.cleanHooks
+    walk [ih] [AllEv.hookGroup P] (AllEv.tlaw P).law
+    exact h _ _
+
+theorem AllEv.getKeyPair (P : Ev → Prop) (h3 : ∀ k, P (.keygen k)) (h4 : ∀ k, P (.readKey k))
+    (cfg : Cfg) : Sat (TR (AllEv P)) (getKeyPair cfg) := by
+  unfold Flow.getKeyPair genKey
+  walk [] [AllEv.emit P, AllEv.freshKey P] (AllEv.tlaw P).law
+  · exact h4 _
+  · exact h3 _
+  · exact h3 _
+
+theorem AllEv.downloadCert (P : Ev → Prop) (h : ∀ s r, P (.exch .certDownload .kid s r)) :
+    Sat (TR (AllEv P)) downloadCert := by
+  unfold Flow.downloadCert
+  walk [] [AllEv.exchange P] (AllEv.tlaw P).law
+  exact h _ _
+
+theorem AllEv.checkBody (P : Ev → Prop) (v : Variant) (k : KeyId) (cb : CertBody) :
+    Sat (TR (AllEv P)) (checkBody v k cb) := by
+  unfold Flow.checkBody
+  walk [] [] (AllEv.tlaw P).law
+
+theorem AllEv.install (P : Ev → Prop) (hh : ∀ b, P (.hooks .filePre b) ∧ P (.hooks .filePost b))
+    (hk : ∀ k, P (.writeKey k)) (hc : ∀ c, P (.writeCert c)) (v : Variant) (k : KeyId) (n : Bool)
+    (x : CertContent) : Sat (TR (AllEv P)) (install v k n x) := by
+  unfold Flow.install Flow.writeKey Flow.writeCert writeFileHooks
+  walk [] [AllEv.hookGroup P, AllEv.emit P, AllEv.modFiles P] (AllEv.tlaw P).law
+  all_goals first | exact (hh _).1 | exact (hh _).2 | exact hk _ | exact hc _
+
+/-- `ARest` without what only `solveChallenges` emits. -/
+def ATail (e : Ev) : Prop :=
+  ARest e ∧ (∀ c a s r, e ≠ .exch (.challengeReady c) a s r) ∧ (∀ c b, e ≠ .hooks (.challenge c) b)
+
+/-- Glue for monitors that need their own treatment of `solveChallenges`. -/
+theorem afterSync_sat2 {Φ : List Ev → Result → Prop} (T : TLaw Φ) (v : Variant) (cfg : Cfg)
+    (hno : Sat (TR Φ) newOrder) (hsolve : ∀ ty l, Sat (TR Φ) (solveChallenges ty l))
+    (htail : ∀ e, ATail e → Φ [e] .ok) : Sat (TR Φ) (afterSync v cfg) := by
+  have L := T.law
+  have hx : ∀ a s, Sat (TR Φ) (exchange (.authz a) s) := fun a s =>
+    TR.exchange T _ _ fun r => htail _ ⟨by simp [ARest, authOf], by simp, by simp⟩
+  have hpa := fun a n => Sat.of_all T htail (AllEv.pollAuthz ATail
+    (fun a s r => ⟨by simp [ARest], by simp, by simp⟩) a n)
+  have hcl := fun l => Sat.of_all T htail (AllEv.cleanHooks ATail
+    (fun c b => ⟨by simp [ARest], by simp, by simp⟩) l)
+  have h0 : ∀ a, Sat (TR Φ) (processAuthz cfg a) := by
+    intro a
+    unfold processAuthz
+    walk [hsolve, hpa, hcl, hx] [] L
+  have h1 : ∀ l, Sat (TR Φ) (processAuthzs cfg l) := by
+    intro l
+    induction l with
+    | nil => unfold processAuthzs; walk [] [] L
+    | cons x rest ih => unfold processAuthzs; walk [ih, h0] [] L
+  have h2 := fun a b c => Sat.of_all T htail (AllEv.pollOrder ATail
+    (fun s r => ⟨by simp [ARest], by simp, by simp⟩) a b c)
+  have h3 := Sat.of_all T htail (AllEv.getKeyPair ATail
+    (fun k => ⟨by simp [ARest], by simp, by simp⟩) (fun k => ⟨by simp [ARest], by simp, by simp⟩) cfg)
+  have h4 := fun k n => Sat.of_all T htail (AllEv.mono (Q := ATail) (fun e h => by
+      cases e with
+      | exch kd a s r =>
+        obtain ⟨h1, h2 | h2⟩ := h <;> subst h2 <;>
+          exact ⟨by simp [ARest, h1, authOf], by simp, by simp⟩
+      | hooks ty b =>
+        obtain ⟨h1 | h1, _⟩ := h <;> subst h1 <;> exact ⟨by simp [ARest], by simp, by simp⟩
+      | saveAccount => exact h.elim
+      | keygen => exact h.elim
+      | readKey => exact h.elim
+      | writeCert => exact h.elim
+      | csr => exact ⟨by simp [ARest], by simp, by simp⟩
+      | writeKey => exact ⟨by simp [ARest], by simp, by simp⟩) (AFetch.fetchPre v k n))
+  have h5 := Sat.of_all T htail (AllEv.downloadCert ATail
+    (fun s r => ⟨by simp [ARest], by simp, by simp⟩))
+  have h6 := fun k cb => Sat.of_all T htail (AllEv.checkBody ATail v k cb)
+  have h7 := fun k n x => Sat.of_all T htail (AllEv.install ATail
+    (fun b => ⟨⟨by simp [ARest], by simp, by simp⟩, ⟨by simp [ARest], by simp, by simp⟩⟩)
+    (fun k => ⟨by simp [ARest], by simp, by simp⟩) (fun c => ⟨by simp [ARest], by simp, by simp⟩)
+    v k n x)
+  unfold afterSync
+  walk [hno, h1, h2, h3, h4, h5, h6, h7] [] L
+
+/-- Events of the directory / account / newOrder part. -/
+def AAcct : Ev → Prop
+  | .exch k a _ _ => a = authOf k ∧
+      (k = .directory ∨ k = .newAccount ∨ k = .accountUpdate ∨ k = .keyChange ∨ k = .newOrder)
+  | .hooks ty _ => ty = .filePre ∨ ty = .filePost
+  | .saveAccount => True
+  | _ => False
+
+section AcctWalk
+local macro "aw" "[" ts:term,* "]" : tactic =>
+  `(tactic| (walk [$ts,*] [AllEv.exchange AAcct, AllEv.hookGroup AAcct, AllEv.emit AAcct,
+                  AllEv.modAcc AAcct] (AllEv.tlaw AAcct).law
+             all_goals simp [AAcct, authOf]))
+
+theorem AAcct.saveAccount : Sat (TR (AllEv AAcct)) saveAccount := by
+  unfold Flow.saveAccount writeFileHooks; aw []
+theorem AAcct.register : Sat (TR (AllEv AAcct)) register := by
+  unfold Flow.register; aw [AAcct.saveAccount]
+theorem AAcct.updateContacts : Sat (TR (AllEv AAcct)) updateContacts := by
+  unfold Flow.updateContacts; aw [AAcct.saveAccount, AAcct.register]
+theorem AAcct.updateKey : Sat (TR (AllEv AAcct)) updateKey := by
+  unfold Flow.updateKey; aw [AAcct.saveAccount, AAcct.register]
+theorem AAcct.synchronize (v : Variant) : Sat (TR (AllEv AAcct)) (synchronize v) := by
+  unfold Flow.synchronize; aw [AAcct.updateContacts, AAcct.updateKey, AAcct.register]
+theorem AAcct.newOrder : Sat (TR (AllEv AAcct)) newOrder := by
+  unfold Flow.newOrder decodeNewOrder; aw [AAcct.register]
+theorem AAcct.refreshDirectory : Sat (TR (AllEv AAcct)) refreshDirectory := by
+  unfold Flow.refreshDirectory; aw []
+end AcctWalk
+
+/-- A monitor for which every event of the account part and of the tail is harmless, and which
+holds of `solveChallenges`, holds of the whole attempt. -/
+theorem attempt_sat2 {Φ : List Ev → Result → Prop} (T : TLaw Φ) (v : Variant) (cfg : Cfg)
+    (hacct : ∀ e, AAcct e → Φ [e] .ok) (hsolve : ∀ ty l, Sat (TR Φ) (solveChallenges ty l))
+    (htail : ∀ e, ATail e → Φ [e] .ok) : Sat (TR Φ) (attemptM v cfg) := by
+  rw [attemptM_eq]
+  have h1 := Sat.of_all T hacct AAcct.refreshDirectory
+  have h2 := Sat.of_all T hacct (AAcct.synchronize v)
+  have h3 := afterSync_sat2 T v cfg (Sat.of_all T hacct AAcct.newOrder) hsolve htail
+  walk [h1, h2, h3] [] T.law
+
+/-! ### Monitor: "ready" only right after that challenge's successful hooks (C05) -/
+
+def readyMon : Option Nat → List Ev → Bool
+  | _, [] => true
+  | st, .exch (.challengeReady c) _ _ _ :: es => (st == some c) && readyMon none es
+  | _, .hooks (.challenge c) true :: es => readyMon (some c) es
+  | _, _ :: es => readyMon none es
+
+def hookFailed (es : List Ev) : Prop := ∃ c, .hooks (.challenge c) false ∈ es
+
+def ΦReady : List Ev → Result → Prop := fun es t =>
+  (∀ st, readyMon st es = true) ∧ (hookFailed es → t = .failed .challengeHooks)
+
+theorem readyMon_append {a b : List Ev} (hb : ∀ st, readyMon st b = true) :
+    ∀ st, readyMon st a = true → readyMon st (a ++ b) = true := by
+  induction a with
+  | nil => intro st _; exact hb st
+  | cons e tl ih =>
+    intro st h
+    cases e with
+    | exch k au s r =>
+      cases k with
+      | challengeReady c =>
+        simp only [List.cons_append, readyMon, Bool.and_eq_true] at h ⊢
+        exact ⟨h.1, ih _ h.2⟩
+      | _ => exact ih _ h
+    | hooks ty ok =>
+      cases ty with
+      | challenge c => cases ok <;> exact ih _ h
+      | _ => exact ih _ h
+    | _ => exact ih _ h
+
+theorem ΦReady.tlaw : TLaw ΦReady where
+  nil := fun _ => ⟨fun _ => rfl, fun ⟨_, h⟩ => by cases h⟩
+  app := by
+    rintro a b t ⟨a1, a2⟩ ⟨b1, b2⟩
+    refine ⟨fun st => readyMon_append b1 st (a1 st), ?_⟩
+    rintro ⟨c, hc⟩
+    rcases List.mem_append.mp hc with h | h
+    · have := a2 ⟨c, h⟩; cases this
+    · exact b2 ⟨c, h⟩
+
+theorem ready_single (e : Ev) (h1 : ∀ c a s r, e ≠ .exch (.challengeReady c) a s r)
+    (h2 : ∀ c b, e ≠ .hooks (.challenge c) b) : ΦReady [e] .ok := by
+  constructor
+  · intro st
+    cases e with
+    | exch k au s r =>
+      cases k with
+      | challengeReady c => exact absurd rfl (h1 c au s r)
+      | _ => rfl
+    | hooks ty ok =>
+      cases ty with
+      | challenge c => exact absurd rfl (h2 c ok)
+      | _ => rfl
+    | _ => rfl
+  · rintro ⟨c, hc⟩
+    rw [List.mem_singleton] at hc
+    exact absurd hc.symm (h2 c false)
+
+def World.afterHook (w : World) (ty : HookKind) (b : Bool) (rest : List Bool) : World :=
+  { w with hks := rest, trace := w.trace ++ [Ev.hooks ty b] }
+
+/-- Continuation of `solveChallenges` after the "ready" POST of challenge `c`. -/
+def solveCont (ty : ChalType) (c : Nat) (rest : List (ChalType × Nat)) (r : ExRes) : M (List Nat) :=
+  match r with
+  | .ok _ => solveChallenges ty rest >>= fun cs => pure (c :: cs)
+  | _ => failAt .challengeReady
+
+theorem solve_cons_run (ty t : ChalType) (c : Nat) (rest : List (ChalType × Nat)) (w : World) :
+    solveChallenges ty ((t, c) :: rest) w =
+      if (t == ty) = true then
+        match w.hks with
+        | [] => (.stuck, w)
+        | false :: h => (.fail .challengeHooks, w.afterHook (.challenge c) false h)
+        | true :: h =>
+          match w.exs with
+          | [] => (.stuck, w.afterHook (.challenge c) true h)
+          | r :: x => solveCont ty c rest r
+              ((w.afterHook (.challenge c) true h).afterExch (.challengeReady c) w.acc.curKey r x)
+      else solveChallenges ty rest w := by
+  rw [solveChallenges]
+  split
+  · simp only [bind_run, hookGroup]
+    rcases w.hks with _ | ⟨ok, h⟩
+    · rfl
+    · cases ok
+      · rfl
+      · simp only [if_true, World.afterHook]
+        rcases w.exs with _ | ⟨r, x⟩
+        · rfl
+        · cases r <;> rfl
+  · rfl
+
+/-- The block: hooks of a challenge, then its "ready" POST; a failed hook group ends the attempt
+with no POST. -/
+theorem ready_solveChallenges (ty : ChalType) (l : List (ChalType × Nat)) :
+    Sat (TR ΦReady) (solveChallenges ty l) := by
+  induction l with
+  | nil => unfold solveChallenges; exact Sat.pure ΦReady.tlaw.law _
+  | cons x rest ih =>
+    obtain ⟨t, c⟩ := x
+    constructor
+    intro w
+    rw [solve_cons_run]
+    split
+    · rcases hh : w.hks with _ | ⟨ok, h⟩
+      · exact ⟨[], by simp, ΦReady.tlaw.nil _⟩
+      · cases ok
+        · exact ⟨[.hooks (.challenge c) false], rfl, ⟨fun st => rfl, fun _ => rfl⟩⟩
+        · simp only
+          rcases hx : w.exs with _ | ⟨r, x⟩
+          · refine ⟨[.hooks (.challenge c) true], rfl, ⟨fun st => rfl, ?_⟩⟩
+            rintro ⟨c', hc'⟩
+            simp at hc'
+          · simp only
+            have hcont : Sat (TR ΦReady) (solveCont ty c rest r) := by
+              unfold solveCont
+              walk [ih] [] ΦReady.tlaw.law
+            obtain ⟨es, he, hs⟩ := hcont.run
+              ((w.afterHook (.challenge c) true h).afterExch (.challengeReady c) w.acc.curKey r x)
+            refine ⟨[.hooks (.challenge c) true, .exch (.challengeReady c) .kid w.acc.curKey r] ++ es,
+              ?_, ?_⟩
+            · rw [he]; simp [World.afterHook, World.afterExch, authOf]
+            · have hblock : ΦReady [.hooks (.challenge c) true,
+                  .exch (.challengeReady c) .kid w.acc.curKey r] .ok := by
+                refine ⟨fun st => by simp [readyMon], ?_⟩
+                rintro ⟨c', hc'⟩
+                simp at hc'
+              exact ΦReady.tlaw.app hblock hs
+    · exact ih.run w
+
+theorem ready_attemptM (v : Variant) (cfg : Cfg) : Sat (TR ΦReady) (attemptM v cfg) :=
+  attempt_sat2 ΦReady.tlaw v cfg
+    (fun e h => ready_single e (by cases e <;> simp_all [AAcct] ; rename_i k _ _ _; intro c; rcases h.2 with h | h | h | h | h <;> simp [h])
+      (by cases e <;> simp_all [AAcct]; rename_i ty _; intro c; rcases h with h | h <;> simp [h]))
+    ready_solveChallenges
+    (fun e h => ready_single e h.2.1 h.2.2)
+
+/-- What `readyMon` accepting a trace means: a "ready" POST for challenge `c` is immediately
+preceded by the successful hook group of challenge `c`. -/
+theorem readyMon_sound {post : List Ev} {c : Nat} {a : Auth} {s : KeyId} {r : ExRes} :
+    ∀ (pre : List Ev) (st : Option Nat),
+      readyMon st (pre ++ .exch (.challengeReady c) a s r :: post) = true →
+      (pre = [] ∧ st = some c) ∨ ∃ pre', pre = pre' ++ [.hooks (.challenge c) true] := by
+  intro pre
+  induction pre with
+  | nil =>
+    intro st h
+    simp only [List.nil_append, readyMon, Bool.and_eq_true, beq_iff_eq] at h
+    exact .inl ⟨rfl, h.1⟩
+  | cons e tl ih =>
+    intro st h
+    right
+    have step : ∀ st', readyMon st' (tl ++ .exch (.challengeReady c) a s r :: post) = true →
+        (st' = some c → e = .hooks (.challenge c) true) →
+        ∃ pre', e :: tl = pre' ++ [.hooks (.challenge c) true] := by
+      intro st' h' hst
+      rcases ih st' h' with ⟨rfl, hs⟩ | ⟨pre', rfl⟩
+      · exact ⟨[], by rw [hst hs]; rfl⟩
+      · exact ⟨e :: pre', rfl⟩
+    cases e with
+    | exch k au s' r' =>
+      cases k with
+      | challengeReady c' =>
+        simp only [List.cons_append, readyMon, Bool.and_eq_true] at h
+        exact step none h.2 (fun hh => by cases hh)
+      | _ => exact step none h (fun hh => by cases hh)
+    | hooks ty ok =>
+      cases ty with
+      | challenge c' =>
+        cases ok
+        · exact step none h (fun hh => by cases hh)
+        · exact step (some c') h (fun hh => by cases hh; rfl)
+      | _ => exact step none h (fun hh => by cases hh)
+    | _ => exact step none h (fun hh => by cases hh)
+
+/-! ### The authorisation step, exactly (C05) -/
+
+theorem processAuthz_valid (cfg : Cfg) (a : Nat) (w : World) (b : AuthzBody) (rest : List ExRes)
+    (hx : w.exs = .ok (.authz b) :: rest) (hv : b.status = .valid) :
+    processAuthz cfg a w = (.val (), w.afterExch (.authz a) w.acc.curKey (.ok (.authz b)) rest) := by
+  unfold processAuthz
+  simp only [bind_run, getW, exchange, hx, hv]
+  rfl
+
+theorem processAuthz_pending (cfg : Cfg) (a : Nat) (w : World) (b : AuthzBody) (rest : List ExRes)
+    (d : Ident) (hx : w.exs = .ok (.authz b) :: rest) (hp : b.status = .pending)
+    (hl : lookup cfg.ids b.ident b.wildcard = some d) :
+    processAuthz cfg a w =
+      (solveChallenges d.chal b.challenges >>= fun cs =>
+        pollAuthz a Gen.DEFAULT_POOL_NB_TRIES >>= fun _ => cleanHooks cs)
+        (w.afterExch (.authz a) w.acc.curKey (.ok (.authz b)) rest) := by
+  unfold processAuthz
+  simp only [bind_run, getW, exchange, hx, hp, hl]
+  rfl
+
+/-- Ids of the "ready" POSTs answered 2xx in a trace. -/
+def readyIds : List Ev → List Nat
+  | [] => []
+  | .exch (.challengeReady c) _ _ (.ok _) :: es => c :: readyIds es
+  | _ :: es => readyIds es
+
+theorem readyIds_append (a b : List Ev) : readyIds (a ++ b) = readyIds a ++ readyIds b := by
+  induction a with
+  | nil => rfl
+  | cons e tl ih =>
+    cases e with
+    | exch k au s r =>
+      cases k with
+      | challengeReady c => cases r <;> simp [readyIds, ih]
+      | _ => simp [readyIds, ih]
+    | _ => simp [readyIds, ih]
+
+/-- `solveChallenges` that returned: the collected list is exactly the offered challenges of the
+configured type, in order, each with its hooks run and its "ready" POST answered 2xx. -/
+theorem solve_val (ty : ChalType) : ∀ (l : List (ChalType × Nat)) (w w' : World) (cs : List Nat),
+    solveChallenges ty l w = (.val cs, w') →
+      cs = (l.filter fun x => x.1 == ty).map (·.2) ∧
+      ∃ es, w'.trace = w.trace ++ es ∧ readyIds es = cs := by
+  intro l
+  induction l with
+  | nil =>
+    intro w w' cs h
+    rw [solveChallenges] at h
+    simp only [pure_run, Prod.mk.injEq, Out.val.injEq] at h
+    exact ⟨by rw [← h.1]; rfl, [], by rw [← h.2]; simp, by rw [← h.1]; rfl⟩
+  | cons x rest ih =>
+    obtain ⟨t, c⟩ := x
+    intro w w' cs h
+    rw [solve_cons_run] at h
+    by_cases ht : (t == ty) = true
+    · simp only [ht, if_true] at h
+      rcases hh : w.hks with _ | ⟨ok, hk⟩
+      · rw [hh] at h; simp at h
+      · rw [hh] at h
+        cases ok
+        · simp at h
+        · simp only at h
+          rcases hx : w.exs with _ | ⟨r, x⟩
+          · rw [hx] at h; simp at h
+          · rw [hx] at h
+            simp only [solveCont] at h
+            cases r with
+            | ok body =>
+              simp only at h
+              obtain ⟨cs', w2, h1, h2⟩ := bind_val_inv h
+              simp only [pure_run, Prod.mk.injEq, Out.val.injEq] at h2
+              obtain ⟨hcs, es, he, hr⟩ := ih _ _ _ h1
+              refine ⟨by rw [← h2.1, hcs]; simp [List.filter, ht], ?_⟩
+              refine ⟨[.hooks (.challenge c) true,
+                .exch (.challengeReady c) .kid w.acc.curKey (.ok body)] ++ es, ?_, ?_⟩
+              · rw [← h2.2, he]; simp [World.afterHook, World.afterExch, authOf]
+              · rw [readyIds_append, hr, ← h2.1]; rfl
+            | acmeErr ty' => simp [failAt] at h
+            | otherErr => simp [failAt] at h
+    · simp only [ht] at h
+      obtain ⟨hcs, es, he, hr⟩ := ih _ _ _ h
+      exact ⟨by rw [hcs]; simp [List.filter, ht], es, he, hr⟩
+
+/-- `cleanHooks` that returned ran exactly one successful clean hook group per collected challenge,
+in order. -/
+theorem cleanHooks_val : ∀ (cs : List Nat) (w w' : World) (u : Unit),
+    cleanHooks cs w = (.val u, w') →
+      w'.trace = w.trace ++ cs.map fun c => .hooks (.clean c) true := by
+  intro cs
+  induction cs with
+  | nil =>
+    intro w w' u h
+    rw [cleanHooks] at h
+    simp only [pure_run, Prod.mk.injEq] at h
+    rw [← h.2]; simp
+  | cons c rest ih =>
+    intro w w' u h
+    rw [cleanHooks] at h
+    simp only [bind_run, hookGroup] at h
+    rcases hh : w.hks with _ | ⟨ok, hk⟩
+    · rw [hh] at h; simp at h
+    · rw [hh] at h
+      cases ok
+      · simp [failAt] at h
+      · simp only [if_true] at h
+        rw [ih _ _ _ h]
+        simp
+
+/-- Whatever happens, `cleanHooks` emits only clean hook events, for a prefix of the collected
+challenges in order. -/
+def cleanIds : List Ev → List Nat
+  | [] => []
+  | .hooks (.clean c) _ :: es => c :: cleanIds es
+  | _ :: es => cleanIds es
+
+theorem cleanHooks_prefix : ∀ (cs : List Nat) (w : World),
+    ∃ es, (cleanHooks cs w).2.trace = w.trace ++ es ∧ cleanIds es <+: cs ∧
+      ∀ e ∈ es, ∃ c b, e = .hooks (.clean c) b := by
+  intro cs
+  induction cs with
+  | nil =>
+    intro w
+    exact ⟨[], by rw [cleanHooks]; simp [pure_run], List.prefix_refl _, by simp⟩
+  | cons c rest ih =>
+    intro w
+    rw [cleanHooks]
+    simp only [bind_run, hookGroup]
+    rcases hh : w.hks with _ | ⟨ok, hk⟩
+    · exact ⟨[], by simp, List.nil_prefix, by simp⟩
+    · cases ok
+      · refine ⟨[.hooks (.clean c) false], rfl, ?_, by simp⟩
+        exact ⟨rest, rfl⟩
+      · simp only [if_true]
+        obtain ⟨es, he, hp, hall⟩ := ih { w with hks := hk, trace := w.trace ++ [Ev.hooks (HookKind.clean c) true] }
+        refine ⟨.hooks (.clean c) true :: es, by rw [he]; simp, ?_, ?_⟩
+        · simp only [cleanIds]
+          obtain ⟨t, ht⟩ := hp
+          exact ⟨t, by rw [← ht]; rfl⟩
+        · intro e he'
+          rcases List.mem_cons.mp he' with rfl | h
+          · exact ⟨c, true, rfl⟩
+          · exact hall e h
+
+/-! ### Anatomy of a successful attempt, with its trace (C01 / C02 flow clauses) -/
+
+def AInst : Ev → Prop
+  | .hooks _ _ => True
+  | .writeKey _ => True
+  | .writeCert _ => True
+  | _ => False
+
+theorem attempt_ok_trace {v : Variant} {cfg : Cfg} {w w' : World}
+    (h : attemptM v cfg w = (.val (), w')) :
+    ∃ k isNew body s es1 es3 esI,
+      w'.trace = w.trace ++ (es1 ++ (if isNew then Ev.keygen k else Ev.readKey k) :: es3 ++
+        .exch .certDownload .kid s (.ok body) :: esI) ∧
+      (∀ e ∈ es1, APrep e) ∧ (∀ e ∈ es3, AFetch v k isNew e) ∧ (∀ e ∈ esI, AInst e) ∧
+      w'.files.certFile = some (body.certClass.content) ∧
+      (v.parseBody = true → body.certClass = .chainFor k) := by
+  obtain ⟨k, isNew, c, cb, w1, w2, w3, w4, h1, h2, h3, h4, h5, h6⟩ := attempt_ok_anatomy h
+  obtain ⟨es1, he1, ha1⟩ := (APrep.prepareM v cfg).run w
+  rw [h1] at he1 ha1
+  obtain ⟨k', isNew', hg, _, _⟩ := getKeyPair_run cfg w1
+  rw [hg] at h2
+  simp only [Prod.mk.injEq, Out.val.injEq] at h2
+  obtain ⟨⟨rfl, rfl⟩, rfl⟩ := h2
+  obtain ⟨es3, he3, ha3⟩ := (AFetch.fetchPre v k' isNew').run _
+  rw [h3] at he3 ha3
+  obtain ⟨body, rest, _, hcb, hw4⟩ := downloadCert_val h4
+  obtain ⟨esI, heI, haI⟩ := (AllEv.install AInst (fun _ => ⟨trivial, trivial⟩) (fun _ => trivial)
+    (fun _ => trivial) v k' isNew' c).run w4
+  rw [h6] at heI haI
+  obtain ⟨_, hp1, hp2⟩ := checkBody_val h5
+  obtain ⟨hcert, _⟩ := install_val h6
+  refine ⟨k', isNew', body, w3.acc.curKey, es1, es3, esI, ?_, ha1, ha3, haI, ?_, ?_⟩
+  · show w'.trace = _
+    rw [heI, hw4]
+    simp only
+    rw [he3]
+    simp only
+    rw [he1]
+    simp
+  · rw [hcert]
+    cases hpb : v.parseBody
+    · rw [hp2 hpb, hcb]
+    · obtain ⟨e1, e2⟩ := hp1 hpb
+      rw [e2, ← hcb, e1]; rfl
+  · intro hpb
+    rw [← hcb]
+    exact (hp1 hpb).1
+
 end AcmedVerif.Flow
